@@ -33,6 +33,12 @@ func (handlerSelf *HandlerDef) Post(fn func()) {
 		return
 	}
 
+	// Close() may close the channel between the check above and the send: drop the function then
+	defer func() {
+		if r := recover(); r != nil && !handlerSelf.isClosed {
+			panic(r)
+		}
+	}()
 	handlerSelf.ch <- fn
 }
 
